@@ -265,11 +265,23 @@ def _execute(case):
             nested = []
 
             def packer(storage, refsf, stop_, gc_):
-                try:
-                    storage.pack(t, refsf, gc=gc_)
-                    nested.append('accepted')
-                except FileStorageError as e:
-                    nested.append('refused' if 'Already packing' in str(e) else 'other: %s' % e)
+                # (the nested requests run the default packer if they are - wrongly - admitted)
+                storage.packer = default_packer
+                for attempt in (1, 2, 3):
+                    try:
+                        storage.pack(t, refsf, gc=gc_)
+                        nested.append('accepted (request #%d while the first pack runs)' % attempt)
+                        break
+                    except FileStorageError as e:
+                        nested.append('refused' if 'Already packing' in str(e) else 'other: %s' % e)
+                    # the undo log stays disabled for the whole pack, whatever was refused meanwhile
+                    try:
+                        storage.undoLog(0, 5)
+                        nested.append('undoLog answered during the pack (after %d refused requests)' % attempt)
+                        break
+                    except Exception as e:      # noqa: B902
+                        if type(e).__name__ != 'UndoError':
+                            raise
                 return default_packer(storage, refsf, stop_, gc_)
             A.storage.packer = packer
             initial = snapshot_dir(da)
@@ -280,8 +292,9 @@ def _execute(case):
                 if type(e).__name__ not in ('FileStorageError', 'PackError', 'AssertionError'):
                     raise
                 out.label('pack-raised')
-            if nested and nested[0] != 'refused':
-                out.fail((PROPERTY, 'second-pack', 'not-refused'), 'a pack requested while one is in progress was %s' % nested[0])
+            bad = [x for x in nested if x != 'refused']
+            if bad:
+                out.fail((PROPERTY, 'second-pack', 'not-refused'), 'while a pack is in progress: %s' % bad[0])
                 return done(out, nt)
             if nested:
                 out.label('second-pack-refused')
